@@ -8,7 +8,8 @@ package main
 //      by the harness - before OnTracks means it does not); the reported tracks are the muxer's tracks
 //      reachable from the playlist it was pointed at, in the muxer's order (the leading stream first for
 //      the fMP4 variants): same codec type, clock rate = the muxer track's ClockRate (90000 for MPEG-TS),
-//      for the fMP4 variants codec parameters equal to parameters that were in force on that muxer track,
+//      for the fMP4 variants codec parameters equal to a set the muxer held between the opening of the first part /
+//      segment of that track the client downloaded and the moment the client had the init (see paramWindow),
 //      and for every track the muxer advertised as an audio rendition (EXT-X-MEDIA in the index.m3u8 the
 //      stub served to this very client) the advertised NAME / LANGUAGE / DEFAULT.
 //   U  units: every callback's payload is byte-identical to written units of that track (video: the
@@ -51,6 +52,8 @@ type failure struct {
 type oracleStats struct {
 	observations []string
 	unitsChecked int
+	paramsChecked   int
+	paramsUnchecked int
 	ptsChecked   int
 	absChecked   int
 	tracksOK     int
@@ -361,15 +364,35 @@ func checkPair(res *pairResult, st *oracleStats) []failure {
 				fail(cr.Attempt, fmt.Sprintf("C09:%s:tracks:clock-rate:%s", vn, kindNames[mt.Kind]), "client track %d has clock rate %d, expected %d", j, ct.ClockRate, e.rate)
 			}
 			if h.Variant != 1 {
-				ok := false
-				for _, s := range res.MuxParams[e.mux] {
-					if s == ct.Params {
-						ok = true
+				// "the same codec parameters": a set the muxer held at some moment between the opening of the first
+				// part / segment of this track the client downloaded (the write of its first unit) and the moment the
+				// client had the init (whichever came first; Low-Latency downloads a part that is still to be
+				// written). A set the muxer had replaced before that - an init that did not follow a parameter
+				// change - is not the muxer's any more.
+				lo, hi, why := paramWindow(h, res, cr, e.mux)
+				if why != "" {
+					st.paramsUnchecked++
+				} else {
+					st.paramsChecked++
+					acc := paramsBetween(res.ParamLine[e.mux], lo, hi)
+					ok := false
+					for _, s := range acc {
+						if s == ct.Params {
+							ok = true
+						}
 					}
-				}
-				if !ok {
-					tracksOK = false
-					fail(cr.Attempt, fmt.Sprintf("C09:%s:tracks:codec-parameters:%s", vn, kindNames[mt.Kind]), "client track %d reports parameters %s; in force on the muxer track were %v", j, ct.Params, res.MuxParams[e.mux])
+					if !ok {
+						tracksOK = false
+						stale := ""
+						for _, pa := range res.ParamLine[e.mux] {
+							if pa.Params == ct.Params && pa.Op < lo && pa.Op < hi {
+								stale = ":stale-init"
+							}
+						}
+						fail(cr.Attempt, fmt.Sprintf("C09:%s:tracks:codec-parameters:%s%s", vn, kindNames[mt.Kind], stale),
+							"client track %d reports parameters %s; between write %d (first unit of the first part / segment it downloaded) and write %d (last write started when it had the init) muxer track %d held %v; the whole line: %v",
+							j, ct.Params, lo, hi, e.mux, acc, res.ParamLine[e.mux])
+					}
 				}
 			}
 			if e.isRend && (ct.Name != e.advName || ct.Lang != e.advLang || ct.Default != e.advDefault) {
@@ -605,3 +628,46 @@ func firstBodyWithoutTracks(cr *clientRun) bool {
 }
 
 var _ = bytes.NewReader
+
+// paramWindow: (write index of the first unit of the first media body of the track's stream the client
+// downloaded, number of writes started when the client had that stream's init - 1); why != "" when one of
+// the two cannot be determined (nothing downloaded yet)
+func paramWindow(h *history, res *pairResult, cr *clientRun, mux int) (lo, hi int, why string) {
+	sid := streamIDOf(h, mux)
+	lo, hi = -2, -2
+	for _, e := range cr.Reqs {
+		if !e.Done || e.Status != 200 {
+			continue
+		}
+		m := reBody.FindStringSubmatch(e.Path)
+		if hi == -2 {
+			if mi := reInitP.FindStringSubmatch(e.Path); mi != nil && mi[1] == sid {
+				hi = e.WritesEnd - 1
+			}
+			continue
+		}
+		if m == nil || m[1] != sid || m[4] != "mp4" {
+			continue
+		}
+		var parts fmp4.Parts
+		if err := parts.Unmarshal(e.Body); err != nil {
+			return 0, 0, "first body does not parse"
+		}
+		for _, p := range parts {
+			for _, tr := range p.Tracks {
+				if len(tr.Samples) == 0 {
+					continue
+				}
+				id := sampleID(h.Tracks[mux].Kind, tr.Samples[0].Payload)
+				ws := res.Written[mux]
+				i := sort.Search(len(ws), func(i int) bool { return ws[i].ID >= id })
+				if i < len(ws) && ws[i].ID == id {
+					return ws[i].Op, hi, ""
+				}
+				return 0, 0, "first sample unknown"
+			}
+		}
+		// a body without samples: look at the next one
+	}
+	return 0, 0, "no init / no media body downloaded"
+}
